@@ -17,6 +17,7 @@ from typing import Any, Dict, List
 import z3
 
 from hv import core, extract, framevc as fv, pyvc, scanvc
+from hv import history
 from hv.driver import Bounded, Spec
 from hv.pyvc import to_z3, z_ite
 
@@ -397,7 +398,7 @@ SPEC = Spec(
     lean=['Folds.lean'],
     prop=PROP, level="proof",
     functions=[(BA, "BreakdownAnalysis._analyze_idle_time_for_stream"), (BA, "BreakdownAnalysis.get_idle_time_breakdown")],
-    units=units, bounded=[Bounded("breakdown_vs_rule", bounded)],
+    units=units, bounded=[Bounded("breakdown_vs_rule", bounded), Bounded("history_independence", history.stage(PROP, "idle", "gen"))],
     trusted=["pandas contracts: shift(1), comparisons with NaN are False, loc[mask, col] = scalar, groupby(key)[col].sum() skips NaN, sort_values(by='ts')",
              "fold meta-lemma (sums over the rows = accumulated per-row terms, L5)",
              "get_idle_time_breakdown's selection/join statements are compared textually with the contract's reading (left join on unique labels = look-up)"],
